@@ -191,6 +191,9 @@ func H_c04() {
 		return
 	}
 	verifZones(r.in, r.out, r.gated, verifClassMap("L0", "leaf"), verifBool("redactNamespaces"), verifBool("redactIPs"), verifParam("eager") == "on")
+	// "emitted with identical keys, order, string contents and exact number literals": what is compared
+	// above is the result tree; the emitted bytes must be exactly that tree
+	verifAssert(r.text == verifSerialize(r.out), "emitted-text-is-the-tree")
 }
 
 // ---- C05: type-aware placeholders ----
